@@ -11,7 +11,7 @@ import itertools
 import random
 
 from .. import tlc
-from ..common import CPUS, chunks, pmap
+from ..batch import run_batches
 from . import c03
 
 EMPTY_RUN = {"protos": [], "cands": [], "regions": []}
@@ -116,22 +116,24 @@ def run(ctx):
         cases.append({"scene": scene, "rules": ruleset, "scale": rng.choice([1, 1000]), "ks": ks, "orders": orders})
     for idx, case in enumerate(cases):
         case["id"] = idx
-    events = [ev for part in pmap(observe_many, chunks(cases, CPUS * 4)) for ev in part]
-    by_id = {}
-    runs = 0
-    for case, event in zip(cases, events):
-        runs += 1 + len(case["ks"]) + len(case["orders"])
-        by_id[case["id"]] = {"op": "meta", "input": {k: case[k] for k in ("scene", "rules", "scale", "ks", "orders")},
-                             "call": call_text(case), "features": c03.features(case), "sampled": True,
-                             "observed": {"base": event["base"], "rotations": [(r["k"], r["exc"], r["protos"]) for r in event["rotations"]][:3]}}
+    samples = {}
+    runs = sum(1 + len(case["ks"]) + len(case["orders"]) for case in cases)
+
+    def describe(case, event):
         if event["base"]["protos"]:
             ctx.nontrivial_case(case["id"])
+        if case["id"] in (0, len(cases) - 1):
+            samples[case["id"]] = {"scene": case["scene"], "rules": [(r["name"], r["cutoff"], r["nbhd"], r["sup"]) for r in case["rules"]],
+                                   "rotations": case["ks"], "rule_orders": case["orders"], "base": event["base"]}
+        return {"op": "meta", "input": {k: case[k] for k in ("scene", "rules", "scale", "ks", "orders")},
+                "call": call_text(case), "features": c03.features(case), "sampled": True,
+                "observed": {"base": event["base"], "rotations": [(r["k"], r["exc"], r["protos"]) for r in event["rotations"]][:3]}}
+
     ctx.evaluations = runs
     ctx.notes["pipeline_runs"] = runs
-    ctx.validate("Detect_Trace", events, by_id, min_per_shard=100)
-    for case in (cases[0], cases[-1]):
-        ctx.sample({"scene": case["scene"], "rules": [(r["name"], r["cutoff"], r["nbhd"], r["sup"]) for r in case["rules"]],
-                    "rotations": case["ks"], "rule_orders": case["orders"], "base": by_id[case["id"]]["observed"]["base"]})
+    run_batches(ctx, "Detect_Trace", cases, observe_many, describe, batch=8000, min_per_shard=100)
+    for ident in sorted(samples):
+        ctx.sample(samples[ident])
     ctx.exhaustive = False
     ctx.rule = ("seeded rulesets (2-3 TLC-enumerated rules, SUPERIORS, EXTENDERS) x layouts (2-4 TLC-enumerated gene locations on rings "
                 "of 8/10/12 bases, plus larger random records); each is detected at the original origin, at 4 (quick) / all "
